@@ -458,6 +458,7 @@ func runHistory(h rhistory) (res renderOutcome) {
 		case "cs":
 			onScreen = nil
 			if !before.AltScreenActive {
+				viewStart = -1 // the view restarts at the top of the window
 				// clearing the screen legitimately erases what is inside the window
 				if len(above) > t.main.top {
 					above = above[:t.main.top]
@@ -556,9 +557,12 @@ func runHistory(h rhistory) (res renderOutcome) {
 			}
 		} else if rendered {
 			b := t.main
+			printedRows := 0
 			if len(queued) > 0 {
 				for _, q := range queued {
-					above = append(above, wrapRows(q, curW)...)
+					rows := wrapRows(q, curW)
+					printedRows += len(rows)
+					above = append(above, rows...)
 				}
 				queued = nil
 			}
@@ -567,6 +571,10 @@ func runHistory(h rhistory) (res renderOutcome) {
 				endRow = b.cr
 			}
 			start := endRow - n + 1
+			// C06: the view keeps its first row (it moves down only by the rows printed above it)
+			if viewStart >= 0 && start != viewStart+printedRows {
+				fail("C06", "the inline view does not start on the row it started on before (plus the rows printed above it)", fmt.Sprintf("row %d", viewStart+printedRows), fmt.Sprintf("row %d", start))
+			}
 			viewStart = start
 			for i := 0; i < n; i++ {
 				got := b.text(start + i)
@@ -606,7 +614,6 @@ func runHistory(h rhistory) (res renderOutcome) {
 				}
 			}
 		}
-		_ = viewStart
 	}
 	res.state = stateLine(rd.State())
 	res.vtDump = t.dump()
@@ -624,6 +631,12 @@ func streamRender(c *corrOut, r *rng, n int, thorough bool) map[string]interface
 		{w: 10, h: 6, r0: 0, ops: []rop{{op: "size", w: 10, h: 6}, {op: "w", arg: "aaa\nbbb\nccc\nddd\n"}, {op: "f"}, {op: "w", arg: "aaa\n"}, {op: "f"}, {op: "w", arg: "aaa\nbbb\nccc\nddd\n"}, {op: "st"}}},
 		{w: 10, h: 6, r0: 1, ops: []rop{{op: "size", w: 10, h: 6}, {op: "w", arg: "aaa\nbbb\nccc\nddd"}, {op: "f"}, {op: "w", arg: "xxx\nbbb"}, {op: "f"}, {op: "w", arg: "yyy\nbbb\nccc\nddd"}, {op: "f"}, {op: "w", arg: "yyy\nbbb\nccc\nddd\n"}, {op: "st"}}},
 		{w: 10, h: 6, r0: 0, ops: []rop{{op: "size", w: 10, h: 6}, {op: "ea"}, {op: "w", arg: "aaa\nbbb\nccc\nddd"}, {op: "f"}, {op: "w", arg: "aaa"}, {op: "f"}, {op: "w", arg: "aaa\nbbb\nccc\nddd"}, {op: "f"}, {op: "xa"}, {op: "w", arg: "q\n"}, {op: "st"}}},
+		// a ClearScreen while a different frame (sharing lines with the one on screen) is pending, then the render / the quit
+		{w: 10, h: 6, r0: 0, ops: []rop{{op: "size", w: 10, h: 6}, {op: "w", arg: "head\naaa\nfoot\n"}, {op: "f"}, {op: "w", arg: "head\nbbb\nfoot\n"}, {op: "cs"}, {op: "f"}}},
+		{w: 10, h: 6, r0: 2, ops: []rop{{op: "size", w: 10, h: 6}, {op: "w", arg: "head\naaa\nfoot\n"}, {op: "f"}, {op: "w", arg: "head\nbbb\nfoot\n"}, {op: "cs"}, {op: "st"}}},
+		{w: 10, h: 6, r0: 0, ops: []rop{{op: "size", w: 10, h: 6}, {op: "ea"}, {op: "w", arg: "head\naaa\nfoot"}, {op: "f"}, {op: "w", arg: "head\nbbb\nfoot"}, {op: "cs"}, {op: "f"}}},
+		// an inline frame, a visit to the alt screen with a ClearScreen there, back, the next inline frame
+		{w: 10, h: 6, r0: 1, ops: []rop{{op: "size", w: 10, h: 6}, {op: "w", arg: "one\ntwo\nthree"}, {op: "f"}, {op: "ea"}, {op: "cs"}, {op: "xa"}, {op: "w", arg: "uno\ndos\ntres"}, {op: "f"}}},
 		{w: 4, h: 4, r0: 1, ops: []rop{{op: "size", w: 4, h: 4}, {op: "ea"}, {op: "w", arg: "abcdef\nxy"}, {op: "f"}, {op: "size", w: 3, h: 2}, {op: "w", arg: "abcdef\nxy\nz"}, {op: "f"}, {op: "xa"}, {op: "w", arg: "q"}, {op: "st"}}},
 	}
 	run := func(h rhistory, bucket string) {
